@@ -23,5 +23,6 @@ case "$id" in
   C05|C06|C15) build build/dynamic; exec ./build/dynamic --prop "$id" --tier "$tier" --deadline "$DL" ;;
   C13|C14) build build/multidim; exec ./build/multidim --prop "$id" --tier "$tier" --deadline "$DL" ;;
   C11|C12) build build/mapped; exec ./build/mapped --prop "$id" --tier "$tier" --deadline "$DL" ;;
+  C18) build build/cabi; exec ./build/cabi --prop "$id" --tier "$tier" --deadline "$DL" ;;
   *) echo "unknown property $id"; exit 2 ;;
 esac
